@@ -99,7 +99,7 @@ fn hasher<D: Default + Update + FixedOutputDirty + Reset + Clone>(data: &[u8]) {
 }
 
 pub fn hashes(data: &[u8]) {
-    use digest::generic_array::typenum::{U1, U128, U200, U32, U64, U7};
+    use digest::generic_array::typenum::{U1, U100, U128, U129, U16, U20, U200, U256, U28, U32, U33, U48, U64, U65, U7, U96};
     hasher::<blake_hash::Blake224>(data);
     hasher::<blake_hash::Blake256>(data);
     hasher::<blake_hash::Blake384>(data);
@@ -116,6 +116,18 @@ pub fn hashes(data: &[u8]) {
     hasher::<skein_hash::Skein256<U200>>(data);
     hasher::<skein_hash::Skein512<U1>>(data);
     hasher::<skein_hash::Skein1024<U200>>(data);
+    // the output sizes named by the Skein paper (128/160/224/384 bits) and sizes just above a block
+    hasher::<skein_hash::Skein256<U16>>(data);
+    hasher::<skein_hash::Skein256<U20>>(data);
+    hasher::<skein_hash::Skein256<U28>>(data);
+    hasher::<skein_hash::Skein256<U33>>(data);
+    hasher::<skein_hash::Skein512<U28>>(data);
+    hasher::<skein_hash::Skein512<U48>>(data);
+    hasher::<skein_hash::Skein512<U65>>(data);
+    hasher::<skein_hash::Skein512<U100>>(data);
+    hasher::<skein_hash::Skein1024<U96>>(data);
+    hasher::<skein_hash::Skein1024<U129>>(data);
+    hasher::<skein_hash::Skein1024<U256>>(data);
     #[cfg(feature = "groestl")]
     {
         hasher::<groestl_aesni::Groestl224>(data);
